@@ -2,8 +2,14 @@
    Only theorem statements, each closed by `exact <lemma>`, with Print Assumptions beneath.
 
    Quantified throughout: X (pyarrow's lossy is_in casts), E (which leaves pyarrow refuses on which
-   row), PA (which value sets pa.array accepts) -- the theorems hold for EVERY behaviour of these;
-   every table content, file layout, batch layout (`split`), projection, filter. *)
+   row), B (which expressions pyarrow refuses to BIND to the files' schema -- before any row, hence also on a
+   data file without rows), PA (which value sets pa.array accepts) -- the theorems hold for EVERY behaviour of
+   these; every table content, file layout (files WITHOUT rows included), batch layout (`split`), projection, filter.
+
+   Reading of "in/not_in never match NULL": the sentence is about the CELL (a NULL cell is never selected by in /
+   not_in); a NULL inside the VALUE SET "matches nothing and is dropped" (documented in Table.scan, pinned by the
+   library's tests).  For NOT IN this is deliberately NOT the SQL standard, under which 4 NOT IN (3, NULL) is UNKNOWN:
+   C12_not_in_null_differs_from_sql states the difference exactly. *)
 From Coq Require Import String Ascii.
 From Coq Require Import ZArith QArith List Bool.
 Require Import DS.Model.Value DS.Model.FilterExpr DS.Gen.GenPrune DS.Model.Prune DS.Proofs.PruneProofs.
@@ -48,14 +54,14 @@ Print Assumptions C12_conj.
    formed or not): scan with checksum verification on/off (parallel = the same map), scan_batches
    with any batching, iter_records. *)
 Theorem C12_api_agree :
-  forall (X : value -> value -> bool) (E : cexpr -> row -> bool) (PA : parg -> bool)
+  forall (X : value -> value -> bool) (E : cexpr -> row -> bool) (B : cexpr -> bool) (PA : parg -> bool)
          (sch : list Z) (ids : list (Z * Z)) (bounds : file -> list (Z * value) * list (Z * value))
          (split : list row -> list (list row)) (v : bool) (cols : option (list Z)) (flt : pyfilter) (files : list file),
     valid_cols sch cols -> (forall l, concat (split l) = l) ->
-    let reference := scan_table X E PA sch ids bounds true cols flt files in
-    scan_table X E PA sch ids bounds v cols flt files = reference
-    /\ flat (scan_batches X E PA sch ids bounds split cols flt files) = reference
-    /\ iter_records X E PA sch ids bounds cols flt files = reference.
+    let reference := scan_table X E B PA sch ids bounds true cols flt files in
+    scan_table X E B PA sch ids bounds v cols flt files = reference
+    /\ flat (scan_batches X E B PA sch ids bounds split cols flt files) = reference
+    /\ iter_records X E B PA sch ids bounds cols flt files = reference.
 Proof. exact api_agree. Qed.
 Print Assumptions C12_api_agree.
 
@@ -64,21 +70,21 @@ Print Assumptions C12_api_agree.
    count of column-less tables, so scan(columns=[]) returns no rows while scan_batches / iter_records
    yield one {} per selected row.  Open finding, reported; not repaired (no small safe repair). *)
 Definition C12_api_agree_any_projection : Prop :=
-  forall (X : value -> value -> bool) (E : cexpr -> row -> bool) (PA : parg -> bool)
+  forall (X : value -> value -> bool) (E : cexpr -> row -> bool) (B : cexpr -> bool) (PA : parg -> bool)
          (sch : list Z) (ids : list (Z * Z)) (bounds : file -> list (Z * value) * list (Z * value))
          (split : list row -> list (list row)) (v : bool) (cs : list Z) (flt : pyfilter) (files : list file),
     (forall c, In c cs -> In c sch) -> (forall l, concat (split l) = l) ->
-    flat (scan_batches X E PA sch ids bounds split (Some cs) flt files) = scan_table X E PA sch ids bounds v (Some cs) flt files.
+    flat (scan_batches X E B PA sch ids bounds split (Some cs) flt files) = scan_table X E B PA sch ids bounds v (Some cs) flt files.
 
 Theorem C12_api_agree_empty_projection_refuted : ~ C12_api_agree_any_projection.
 Proof. exact api_agree_empty_projection_refuted. Qed.
 Print Assumptions C12_api_agree_empty_projection_refuted.
 
 (* ... and that common answer is the SQL one: project cols (filter sql (concat files)), whenever the
-   filter is accepted, well shaped, and pyarrow does not refuse a row (pruning by the stored bounds
-   included: C13). *)
+   filter is accepted, well shaped, and pyarrow refuses neither to bind the expression nor a row (pruning by
+   the stored bounds included: C13). *)
 Theorem C12_api_sql :
-  forall (X : value -> value -> bool) (E : cexpr -> row -> bool) (PA : parg -> bool)
+  forall (X : value -> value -> bool) (E : cexpr -> row -> bool) (B : cexpr -> bool) (PA : parg -> bool)
          (sch : list Z) (ids : list (Z * Z)) (split : list row -> list (list row)) (v : bool)
          (cols : option (list Z)) (flt : pyfilter) (files : list file)
          (ps : list pexpr) (ce : option cexpr) (es : list fexpr),
@@ -86,18 +92,19 @@ Theorem C12_api_sql :
     map to_fexpr ps = map Some es ->
     valid_cols sch cols -> (forall l, concat (split l) = l) ->
     NoDup (map snd ids) -> (forall f, In f files -> wf_file ids (frows f)) ->
+    refused B ce = false ->
     (forall e f r, ce = Some e -> In f files -> In r (frows f) -> eval3 X E e r <> None) ->
     let answer := Ok (sel cols (filter (row_selected X es) (concat (map frows files)))) in
-    scan_table X E PA sch ids (stored_bounds ids) v cols flt files = answer
-    /\ flat (scan_batches X E PA sch ids (stored_bounds ids) split cols flt files) = answer
-    /\ iter_records X E PA sch ids (stored_bounds ids) cols flt files = answer.
+    scan_table X E B PA sch ids (stored_bounds ids) v cols flt files = answer
+    /\ flat (scan_batches X E B PA sch ids (stored_bounds ids) split cols flt files) = answer
+    /\ iter_records X E B PA sch ids (stored_bounds ids) cols flt files = answer.
 Proof. exact api_sql. Qed.
 Print Assumptions C12_api_sql.
 
 (* The stored statistics need not be the exact minimum / maximum: the same answer for ANY stored bounds that are
    SOUND for the filter (`bounds_sound`: no expression prunes a file in which it selects a row). *)
 Theorem C12_api_sql_sound_bounds :
-  forall (X : value -> value -> bool) (E : cexpr -> row -> bool) (PA : parg -> bool)
+  forall (X : value -> value -> bool) (E : cexpr -> row -> bool) (B : cexpr -> bool) (PA : parg -> bool)
          (sch : list Z) (ids : list (Z * Z)) (bounds : file -> list (Z * value) * list (Z * value))
          (split : list row -> list (list row)) (v : bool)
          (cols : option (list Z)) (flt : pyfilter) (files : list file)
@@ -106,11 +113,12 @@ Theorem C12_api_sql_sound_bounds :
     map to_fexpr ps = map Some es ->
     valid_cols sch cols -> (forall l, concat (split l) = l) ->
     bounds_sound X ids bounds es files ->
+    refused B ce = false ->
     (forall e f r, ce = Some e -> In f files -> In r (frows f) -> eval3 X E e r <> None) ->
     let answer := Ok (sel cols (filter (row_selected X es) (concat (map frows files)))) in
-    scan_table X E PA sch ids bounds v cols flt files = answer
-    /\ flat (scan_batches X E PA sch ids bounds split cols flt files) = answer
-    /\ iter_records X E PA sch ids bounds cols flt files = answer.
+    scan_table X E B PA sch ids bounds v cols flt files = answer
+    /\ flat (scan_batches X E B PA sch ids bounds split cols flt files) = answer
+    /\ iter_records X E B PA sch ids bounds cols flt files = answer.
 Proof. exact api_sql_gen. Qed.
 Print Assumptions C12_api_sql_sound_bounds.
 
@@ -190,7 +198,7 @@ Print Assumptions C12_history_files.
    exact bounds, one kind per column), for ANY bounds function that gives pruning what the manifests hold, every API
    returns project cols (filter sql rows-of-the-live-files) -- the live files being those of the list semantics. *)
 Theorem C12_history_sql :
-  forall (X : value -> value -> bool) (E : cexpr -> row -> bool) (PA : parg -> bool)
+  forall (X : value -> value -> bool) (E : cexpr -> row -> bool) (B : cexpr -> bool) (PA : parg -> bool)
          (sch : list Z) (ids : list (Z * Z)) (bounds : file -> list (Z * value) * list (Z * value))
          (split : list row -> list (list row)) (v : bool)
          (cols : option (list Z)) (flt : pyfilter) (txs : list tx)
@@ -203,11 +211,12 @@ Theorem C12_history_sql :
     NoDup (paths (concat (map tx_app txs))) ->
     (forall d, In d (table_files (run txs [])) -> bounds (dfile_ d) = manifest_bounds d) ->
     let files := map dfile_ (table_files (run txs [])) in
+    refused B ce = false ->
     (forall e f r, ce = Some e -> In f files -> In r (frows f) -> eval3 X E e r <> None) ->
     let answer := Ok (sel cols (filter (row_selected X es) (concat (map frows (map dfile_ (spec_run txs [])))))) in
-    scan_table X E PA sch ids bounds v cols flt files = answer
-    /\ flat (scan_batches X E PA sch ids bounds split cols flt files) = answer
-    /\ iter_records X E PA sch ids bounds cols flt files = answer.
+    scan_table X E B PA sch ids bounds v cols flt files = answer
+    /\ flat (scan_batches X E B PA sch ids bounds split cols flt files) = answer
+    /\ iter_records X E B PA sch ids bounds cols flt files = answer.
 Proof. exact history_sql. Qed.
 Print Assumptions C12_history_sql.
 
@@ -219,39 +228,71 @@ Theorem C12_typed_evaluates :
 Proof. exact typed_defined. Qed.
 Print Assumptions C12_typed_evaluates.
 
-(* When pyarrow refuses a row of a file that is read (type error for a literal), the scan raises --
-   and by C12_api_agree so does every other API. *)
+(* When pyarrow refuses the expression on a file that is read -- when BINDING it to the file's schema (unknown
+   column, literal of a type the column cannot be compared with: then the file need not have a single row), or on
+   one of the file's rows -- EVERY API raises. *)
 Theorem C12_refused_raises :
-  forall (X : value -> value -> bool) (E : cexpr -> row -> bool) (PA : parg -> bool)
+  forall (X : value -> value -> bool) (E : cexpr -> row -> bool) (B : cexpr -> bool) (PA : parg -> bool)
          (sch : list Z) (ids : list (Z * Z)) (bounds : file -> list (Z * value) * list (Z * value))
-         (v : bool) (cols : option (list Z)) (flt : pyfilter) (files : list file)
-         (ps : list pexpr) (e : cexpr) (f : file) (r : row),
-    prepare PA flt = Ok (ps, Some e) -> valid_cols sch cols ->
-    In f (prune_p ids bounds ps files) -> In r (frows f) -> eval3 X E e r = None ->
-    scan_table X E PA sch ids bounds v cols flt files = Err EEval.
-Proof. exact scan_raises. Qed.
+         (split : list row -> list (list row)) (v : bool) (cols : option (list Z)) (flt : pyfilter) (files : list file)
+         (ps : list pexpr) (e : cexpr) (f : file),
+    prepare PA flt = Ok (ps, Some e) -> valid_cols sch cols -> (forall l, concat (split l) = l) ->
+    In f (prune_p ids bounds ps files) ->
+    (B e = true \/ exists r, In r (frows f) /\ eval3 X E e r = None) ->
+    scan_table X E B PA sch ids bounds v cols flt files = Err EEval
+    /\ flat (scan_batches X E B PA sch ids bounds split cols flt files) = Err EEval
+    /\ iter_records X E B PA sch ids bounds cols flt files = Err EEval.
+Proof. exact refused_raises_everywhere. Qed.
 Print Assumptions C12_refused_raises.
 
-(* Malformed filters raise instead of being reinterpreted: an operator outside the (REGENERATED)
-   table, a non-string operator, or {"c": None} is a parse error ... *)
+(* Why _iter_file_batches has to show the EMPTY table of a data file without rows to pyarrow (the repair): a batch
+   reader that evaluates only the batches it is handed (`scan_batches_unchecked`, the code before the repair) returns
+   no rows where scan() raises -- the APIs disagree on a table whose only file has no rows. *)
+Theorem C12_zero_row_file_check_needed :
+  exists (X : value -> value -> bool) (E : cexpr -> row -> bool) (B : cexpr -> bool) (PA : parg -> bool)
+         (sch : list Z) (ids : list (Z * Z)) (bounds : file -> list (Z * value) * list (Z * value))
+         (cols : option (list Z)) (flt : pyfilter) (files : list file),
+    valid_cols sch cols
+    /\ scan_table X E B PA sch ids bounds true cols flt files = Err EEval
+    /\ flat (scan_batches_unchecked X E B PA sch ids bounds (chunk 1000) cols flt files) = Ok []
+    /\ flat (scan_batches X E B PA sch ids bounds (chunk 1000) cols flt files) = Err EEval.
+Proof. exact unchecked_batches_disagree. Qed.
+Print Assumptions C12_zero_row_file_check_needed.
+
+(* Malformed filters raise instead of being reinterpreted.  `well_formed` and `meaning` (Proofs/FilterProofs.v) spell
+   the documented filter language out INDEPENDENTLY of the parser and of the regenerated tables: a known spelling
+   (`spelled`: between, is_null / isnull, is_not_null / notnull / isnotnull, or an operator of `sql_meaning`) with an
+   argument of the shape it takes -- between a PAIR (a str is not unpacked into two characters), is_null / is_not_null the
+   flag True (False is not answered with the opposite test), in / not_in no str (its characters are not iterated) --
+   and {"c": None} is not a filter.  The parser fails EXACTLY when some condition is not well-formed, and otherwise
+   returns exactly the meanings of the conditions, in order: nothing is reinterpreted, nothing well-formed is refused. *)
 Theorem C12_strict :
   forall (f : pyfilter),
-    (exists c k a, In (c, CPair k a) f /\ ~ known_key k) \/ (exists c, In (c, CPlain (AVal VNull)) f) ->
-    parse f = Err EParse.
+    (forall c cd, In (c, cd) f -> well_formed cd = true) /\ parse f = Ok (flat_map (fun ccd => meaning (fst ccd) (snd ccd)) f)
+    \/ (exists c cd, In (c, cd) f /\ well_formed cd = false) /\ parse f = Err EParse.
 Proof. exact parse_strict. Qed.
 Print Assumptions C12_strict.
+
+(* ... a SCALAR where in / not_in take a list is never read as "a set": a str is a parse error (above), any other
+   scalar fails when the expression is built -- the front end rejects the filter ... *)
+Theorem C12_strict_value_set :
+  forall (PA : parg -> bool) (f : pyfilter) (c : Z) (s : string) (v : value),
+    In (c, CPair (OpStr s) (AVal v)) f -> (sql_meaning (lower s) = Some IN \/ sql_meaning (lower s) = Some NOT_IN) ->
+    exists k, prepare PA f = Err k.
+Proof. exact value_set_scalar_raises. Qed.
+Print Assumptions C12_strict_value_set.
 
 (* ... a filter rejected by the front end is rejected by every API on every table (the empty one and
    the all-pruned one included) ... *)
 Theorem C12_strict_everywhere :
-  forall (X : value -> value -> bool) (E : cexpr -> row -> bool) (PA : parg -> bool)
+  forall (X : value -> value -> bool) (E : cexpr -> row -> bool) (B : cexpr -> bool) (PA : parg -> bool)
          (sch : list Z) (ids : list (Z * Z)) (bounds : file -> list (Z * value) * list (Z * value))
          (flt : pyfilter) (k : errk),
     prepare PA flt = Err k ->
     forall v split cols files,
-      scan_table X E PA sch ids bounds v cols flt files = Err k
-      /\ scan_batches X E PA sch ids bounds split cols flt files = Err k
-      /\ iter_records X E PA sch ids bounds cols flt files = Err k.
+      scan_table X E B PA sch ids bounds v cols flt files = Err k
+      /\ scan_batches X E B PA sch ids bounds split cols flt files = Err k
+      /\ iter_records X E B PA sch ids bounds cols flt files = Err k.
 Proof. exact malformed_raises_everywhere. Qed.
 Print Assumptions C12_strict_everywhere.
 
@@ -262,15 +303,18 @@ Theorem C12_operator_faithful :
     parse_one c (CPair (OpStr s) a) = Ok ps ->
     (lower s = between_key /\ exists lo hi, unpack2 a = Ok (lo, hi) /\
         ps = [ {| pcol := c; pop := GE; pval := AVal lo |}; {| pcol := c; pop := LE; pval := AVal hi |} ])
-    \/ (In (lower s) is_null_aliases /\ ps = [ {| pcol := c; pop := IS_NULL; pval := AVal VNull |} ])
-    \/ (In (lower s) is_not_null_aliases /\ ps = [ {| pcol := c; pop := IS_NOT_NULL; pval := AVal VNull |} ])
-    \/ (exists op, assoc_str (lower s) op_table = Some op /\ ps = [ {| pcol := c; pop := op; pval := a |} ]).
+    \/ (In (lower s) is_null_aliases /\ flag_true a = true /\ ps = [ {| pcol := c; pop := IS_NULL; pval := AVal VNull |} ])
+    \/ (In (lower s) is_not_null_aliases /\ flag_true a = true /\ ps = [ {| pcol := c; pop := IS_NOT_NULL; pval := AVal VNull |} ])
+    \/ (exists op, assoc_str (lower s) op_table = Some op /\ text_value_set op a = false /\ ps = [ {| pcol := c; pop := op; pval := a |} ]).
 Proof. exact parse_one_faithful. Qed.
 Print Assumptions C12_operator_faithful.
 
+(* the REGENERATED operator table is the independent reading of the spellings -- nothing more, nothing less -- and
+   the parser's classification of a key (between / is_null aliases / is_not_null aliases / table, in the order
+   parse_filter_dict tests them, all REGENERATED) is the independent one *)
 Theorem C12_operator_table :
-  forall (s : string) (op : fop), assoc_str s op_table = Some op -> sql_meaning s = Some op.
-Proof. exact op_table_meaning. Qed.
+  forall (s : string), assoc_str s op_table = sql_meaning s /\ key_class s = spelled s.
+Proof. exact (fun s => conj (op_table_is_sql s) (key_class_spelled s)). Qed.
 Print Assumptions C12_operator_table.
 
 Theorem C12_special_keys :
@@ -285,26 +329,45 @@ Print Assumptions C12_special_keys.
 (* Why _read_datafile_table / _iter_file_batches must filter BEFORE they project: projecting first
    makes pyarrow refuse every filter that reads a column outside the projection. *)
 Theorem C12_project_after :
-  forall (X : value -> value -> bool) (E : cexpr -> row -> bool) (sch cs : list Z) (e : cexpr) (rows : list row) (c : Z),
+  forall (X : value -> value -> bool) (E : cexpr -> row -> bool) (B : cexpr -> bool) (sch cs : list Z) (e : cexpr) (rows : list row) (c : Z),
     valid_cols sch (Some cs) -> In c (fields e) -> ~ In c cs -> rows <> [] ->
-    read_project_first X E sch (Some cs) (Some e) rows = Err EEval.
+    read_project_first X E B sch (Some cs) (Some e) rows = Err EEval.
 Proof. exact project_first_fails. Qed.
 Print Assumptions C12_project_after.
 
+(* NOT IN with NULLs in the value set (see the header): the rows selected are those on which the SQL standard's
+   three-valued NOT IN (`sql3_not_in`) is TRUE, plus those on which it is UNKNOWN only because of NULLs in the value set
+   (the cell is not NULL and matches no element) ... *)
+Theorem C12_not_in_nulls_dropped :
+  forall (X : value -> value -> bool) (v : value) (vals : list value),
+    selected X NOT_IN v VNull vals = true
+    <-> sql3_not_in X v vals = TT \/ (sql3_not_in X v vals = TN /\ is_null v = false /\ existsb is_null vals = true).
+Proof. exact not_in_vs_sql3. Qed.
+Print Assumptions C12_not_in_nulls_dropped.
+
+(* ... so 4 NOT IN (3, NULL) is selected here and UNKNOWN (not selected) under the SQL standard. *)
+Theorem C12_not_in_null_differs_from_sql :
+  forall X, selected X NOT_IN (VInt 4) VNull [VInt 3; VNull] = true /\ sql3_not_in X (VInt 4) [VInt 3; VNull] = TN.
+Proof. exact not_in_null_differs_from_sql. Qed.
+Print Assumptions C12_not_in_null_differs_from_sql.
+
 (* ------------------------------------------------------------------ non-vacuity
-   Table {x double, k long} in two files: [{5.0,1}; {NaN,2}] and [{NULL,3}; {7.0,4}; {8.0,NULL}].
+   Table {x double, k long} in three files: [{5.0,1}; {NaN,2}], [{NULL,3}; {7.0,4}; {8.0,NULL}] and one WITHOUT rows.
    Filter {"x": ("!=", 5.0), "k": ("Not_In", [3, None])} with projection ["k"]:
    the hypotheses of C12_api_sql hold and the answer is the two rows k=2 (the NaN row) and k=4;
    the rows with x NULL or k NULL are not selected -- non-empty, NULL- and NaN-sensitive; batches of
-   one row give the same; unknown operator and {"c": None} are parse errors. *)
+   one row give the same; unknown operator, {"c": None}, a str as value set or as between argument and the flag False
+   are not well-formed: parse errors. *)
 Definition ex_X (a b : value) : bool := py_eqb a b.
 Definition ex_E (_ : cexpr) (_ : row) : bool := false.
+Definition ex_B (_ : cexpr) : bool := false.
 Definition ex_PA (_ : parg) : bool := true.
 Definition ex_sch : list Z := [0; 1].
 Definition ex_ids : list (Z * Z) := [(0, 1); (1, 2)].
 Definition ex_files : list file :=
   [ {| frows := [ [(0, VFlt (Fin (5 # 1))); (1, VInt 1)]; [(0, VFlt NaN); (1, VInt 2)] ]; fcs := true |};
-    {| frows := [ [(0, VNull); (1, VInt 3)]; [(0, VFlt (Fin (7 # 1))); (1, VInt 4)]; [(0, VFlt (Fin (8 # 1))); (1, VNull)] ]; fcs := false |} ].
+    {| frows := [ [(0, VNull); (1, VInt 3)]; [(0, VFlt (Fin (7 # 1))); (1, VInt 4)]; [(0, VFlt (Fin (8 # 1))); (1, VNull)] ]; fcs := false |};
+    {| frows := []; fcs := true |} ].
 Definition ex_flt : pyfilter :=
   [ (0, CPair (OpStr "!=") (AVal (VFlt (Fin (5 # 1))))); (1, CPair (OpStr "Not_In") (AList [VInt 3; VNull])) ].
 Definition ex_es : list fexpr :=
@@ -317,23 +380,56 @@ Example C12_nonvacuous :
     /\ map to_fexpr ps = map Some ex_es
     /\ valid_cols ex_sch (Some [1])
     /\ NoDup (map snd ex_ids)
+    /\ refused ex_B (Some ce) = false
     /\ (forall f r, In f ex_files -> In r (frows f) -> eval3 ex_X ex_E ce r <> None)
-    /\ scan_table ex_X ex_E ex_PA ex_sch ex_ids (stored_bounds ex_ids) false (Some [1]) ex_flt ex_files
+    /\ scan_table ex_X ex_E ex_B ex_PA ex_sch ex_ids (stored_bounds ex_ids) false (Some [1]) ex_flt ex_files
        = Ok [ [(1, VInt 2)]; [(1, VInt 4)] ]
-    /\ flat (scan_batches ex_X ex_E ex_PA ex_sch ex_ids (stored_bounds ex_ids) (chunk 1) (Some [1]) ex_flt ex_files)
+    /\ flat (scan_batches ex_X ex_E ex_B ex_PA ex_sch ex_ids (stored_bounds ex_ids) (chunk 1) (Some [1]) ex_flt ex_files)
        = Ok [ [(1, VInt 2)]; [(1, VInt 4)] ]
     /\ sel (Some [1]) (filter (row_selected ex_X ex_es) (concat (map frows ex_files))) = [ [(1, VInt 2)]; [(1, VInt 4)] ]
+    /\ (forall c cd, In (c, cd) ex_flt -> well_formed cd = true)
+    /\ parse ex_flt = Ok (flat_map (fun ccd => meaning (fst ccd) (snd ccd)) ex_flt)
+    /\ map well_formed [ CPair (OpStr "gte") (AVal (VInt 1)); CPlain (AVal VNull); CPair (OpStr "IN") (AVal (VStr [97; 98]));
+                         CPair (OpStr "between") (AVal (VStr [97; 98])); CPair (OpStr "is_null") (AVal (VBool false));
+                         CPair OpOther (AVal (VInt 1)) ]
+       = [false; false; false; false; false; false]
     /\ parse [ (0, CPair (OpStr "gte") (AVal (VInt 1))) ] = Err EParse
-    /\ parse [ (0, CPlain (AVal VNull)) ] = Err EParse.
+    /\ parse [ (0, CPlain (AVal VNull)) ] = Err EParse
+    /\ parse [ (0, CPair (OpStr "in") (AVal (VStr [97; 98]))) ] = Err EParse
+    /\ parse [ (0, CPair (OpStr "Between") (AVal (VStr [97; 98]))) ] = Err EParse
+    /\ parse [ (0, CPair (OpStr "is_null") (AVal (VBool false))) ] = Err EParse.
 Proof.
   eexists. eexists. split; [vm_compute; reflexivity|].
   split; [vm_compute; reflexivity|].
   split; [simpl; split; [discriminate|intuition]|].
   split; [repeat constructor; simpl; intuition discriminate|].
+  split; [reflexivity|].
   split.
   - intros f r Hf Hr. simpl in Hf.
-    destruct Hf as [<-|[<-|[]]]; simpl in Hr; repeat (destruct Hr as [<-|Hr]; [vm_compute; discriminate|]); contradiction.
-  - vm_compute. repeat split.
+    destruct Hf as [<-|[<-|[<-|[]]]]; simpl in Hr; repeat (destruct Hr as [<-|Hr]; [vm_compute; discriminate|]); contradiction.
+  - split; [vm_compute; reflexivity|]. split; [vm_compute; reflexivity|]. split; [vm_compute; reflexivity|].
+    split; [intros c cd Hi; simpl in Hi; destruct Hi as [[= <- <-]|[[= <- <-]|[]]]; vm_compute; reflexivity|].
+    vm_compute. repeat split.
+Qed.
+
+(* non-vacuity of C12_refused_raises at BINDING: table {x long} whose only data file has no rows; pyarrow cannot compare
+   the long column with a string literal (B refuses `x == "x"`); the hypotheses hold -- the file is not pruned (a file
+   without rows has no bounds) -- and every API raises; with the comparable literal 1 every API returns no rows. *)
+Definition zx_B (e : cexpr) : bool := match e with Cmp _ 0 (AVal (VStr _)) => true | _ => false end.
+Definition zx_files : list file := [ {| frows := []; fcs := true |} ].
+Definition zx_flt : pyfilter := [ (0, CPlain (AVal (VStr [120]))) ].
+
+Example C12_zero_row_file_nonvacuous :
+  exists ps e f,
+    prepare ex_PA zx_flt = Ok (ps, Some e) /\ valid_cols [0] None
+    /\ In f (prune_p [(0, 1)] (stored_bounds [(0, 1)]) ps zx_files) /\ frows f = [] /\ zx_B e = true
+    /\ scan_table ex_X ex_E zx_B ex_PA [0] [(0, 1)] (stored_bounds [(0, 1)]) false None zx_flt zx_files = Err EEval
+    /\ flat (scan_batches ex_X ex_E zx_B ex_PA [0] [(0, 1)] (stored_bounds [(0, 1)]) (chunk 3) None zx_flt zx_files) = Err EEval
+    /\ iter_records ex_X ex_E zx_B ex_PA [0] [(0, 1)] (stored_bounds [(0, 1)]) None zx_flt zx_files = Err EEval
+    /\ iter_records ex_X ex_E zx_B ex_PA [0] [(0, 1)] (stored_bounds [(0, 1)]) None [ (0, CPlain (AVal (VInt 1))) ] zx_files = Ok [].
+Proof.
+  eexists. eexists. exists {| frows := []; fcs := true |}.
+  split; [vm_compute; reflexivity|]. split; [exact I|]. split; [vm_compute; auto|]. vm_compute. repeat split.
 Qed.
 
 (* ------------------------------------------------------------------ non-vacuity, tables with a history
@@ -370,9 +466,9 @@ Example C12_history_nonvacuous :
   /\ map (fun e => (spath e, lookup 1 (gen_load_lower (slo e)), lookup 1 (gen_load_upper (shi e)))) (concat (run hx_txs []))
      = [ (11, Some (VStr [109]), Some (VStr [109])); (13, Some (VStr [98]), Some (VStr [98])) ]
   /\ map dpath (spec_run hx_txs []) = [11; 13]
-  /\ (exists ps ce, prepare ex_PA hx_flt = Ok (ps, Some ce)
+  /\ (exists ps ce, prepare ex_PA hx_flt = Ok (ps, Some ce) /\ refused ex_B (Some ce) = false
         /\ forall f r, In f (map dfile_ (table_files (run hx_txs []))) -> In r (frows f) -> eval3 ex_X ex_E ce r <> None)
-  /\ scan_table ex_X ex_E ex_PA ex_sch hx_ids (stored_bounds hx_ids) true (Some [1]) hx_flt (map dfile_ (table_files (run hx_txs [])))
+  /\ scan_table ex_X ex_E ex_B ex_PA ex_sch hx_ids (stored_bounds hx_ids) true (Some [1]) hx_flt (map dfile_ (table_files (run hx_txs [])))
      = Ok [ [(1, VInt 3)]; [(1, VInt 5)] ].
 Proof.
   split.
@@ -384,7 +480,7 @@ Proof.
   split; [vm_compute; reflexivity|].
   split; [vm_compute; reflexivity|].
   split; [|vm_compute; reflexivity].
-  eexists. eexists. split; [vm_compute; reflexivity|].
+  eexists. eexists. split; [vm_compute; reflexivity|]. split; [reflexivity|].
   intros f r Hf Hr. vm_compute in Hf.
   repeat (destruct Hf as [<-|Hf]; [simpl in Hr; repeat (destruct Hr as [<-|Hr]; [vm_compute; discriminate|]); contradiction|]).
   contradiction.
